@@ -173,6 +173,15 @@ def h_grid_shape(ctx):
         ctx.claim("meshgrid=False easting matches row 0", eq(e1[j], east[0, j]))
     for i in range(min(len(n1), shape[0])):
         ctx.claim("meshgrid=False northing matches column 0", eq(n1[i], north[i, 0]))
+    # every call returns arrays of its own: writing into a result must not show in the next, identical request
+    e2, n2 = vc.grid_coordinates((w, e, s, n), shape=shape, pixel_register=cfg["pixel"], meshgrid=False)
+    ctx.claim("results of separate calls (and easting / northing of one call) are separate arrays", And(e2 is not e1, n2 is not n1, e1 is not n1, e2 is not n2))
+    if len(e1) and e2 is not e1:
+        keep = [v for v in e2]
+        e1[...] = 12345.0
+        n1[...] = -12345.0
+        e3, n3 = vc.grid_coordinates((w, e, s, n), shape=shape, pixel_register=cfg["pixel"], meshgrid=False)
+        ctx.claim("a repeated request is unaffected by what the caller did to an earlier result", And([eq(a, b) for a, b in zip(e3, keep)] + [eq(a, b) for a, b in zip(e2, keep)]))
     if cfg.get("extra"):
         try:
             vc.grid_coordinates((w, e, s, n), shape=shape, meshgrid=False, extra_coords=extra[0])
